@@ -207,6 +207,11 @@ def impl(case):
         vals = _flat(run(), [])
         types = all(isinstance(v, (int, Fraction, np.integer)) and not isinstance(v, bool) for v in vals)
         return {"vals": [out_num(v) for v in vals], "types": types}
+    # the float and int-knot twins of the same operation run FIRST in the same process (results discarded): anything the
+    # library memoises under keys that compare equal across number classes must not leak into the exact run
+    capture(lambda: _run(case, float, float))
+    if all(F(*map(int, u.split("/"))).denominator == 1 for u in case["U"]):
+        capture(lambda: _run(case, int, float))
     ex = capture(lambda: flat(lambda: _run(case, F_ID, F_ID)))
     res["exact"] = ex
     res["types"] = bool("ok" in ex and ex["ok"]["types"])
